@@ -6,6 +6,9 @@
 // an access-specifier override (evidence only).
 #include "common/hx.h"
 #include <stdarg.h>
+#include <signal.h>
+#include <unistd.h>
+#include <sys/time.h>
 #define private public
 #include <nstd/Map.hpp>
 #include <nstd/MultiMap.hpp>
@@ -130,6 +133,9 @@ static usize countOf(M&, const Key&, bool& ok) { ok = false; return 0; }
 static usize countOf(X& c, const Key& k, bool& ok) { ok = true; return c.count(k); }
 
 // items per heap block: told by the check (translated from the current headers)
+#ifndef AVL_WATCHDOG_S
+#define AVL_WATCHDOG_S 4
+#endif
 #ifndef AVL_IPB_MAP
 #define AVL_IPB_MAP 4
 #endif
@@ -269,12 +275,25 @@ template<class C> static bool doOp(C& c, HxLine& l)
   return false;
 }
 
+// a corrupted tree can make an operation loop forever: every op line gets a few seconds of CPU time
+// (virtual timer: waiting or being descheduled does not count), then the process ends like a crash (the framework attributes it to the op line)
+static void onAlarm(int)
+{
+  static const char msg[] = "ERROR: nstd harness watchdog: the operation did not return (endless loop)\n";
+  ssize_t r = write(2, msg, sizeof(msg) - 1);
+  (void)r;
+  _exit(89);
+}
+
 int main()
 {
   HxLine l;
+  signal(SIGVTALRM, onAlarm);
   resetAll();
   while(hxRead(l))
   {
+    struct itimerval tv = {{0, 0}, {AVL_WATCHDOG_S, 0}};
+    setitimer(ITIMER_VIRTUAL, &tv, 0);
     if(hxIs(l, "reset", 0)) { resetAll(); printf("ok"); hxEndLine(); continue; }
     if(hxIs(l, "dom", 2)) { domLo = hxInt(l, 1); domHi = hxInt(l, 2); printf("ok"); hxEndLine(); continue; }
     if(hxIs(l, "obs", 1)) { lvl = (int)hxNum(l, 1); printf("ok"); hxEndLine(); continue; }
